@@ -711,37 +711,38 @@ func c07RuleVisit(c *Ctx, g *load.G) {
 	visit := rv + ".Expr.NullableVisit(" + arg + ")"
 	var bad []string
 	nCut, nVisit := 0, 0
-	for _, p := range enumPaths(fd.Body) {
-		if eg := extraGuards(p, rv+".Visited"); len(eg) > 0 {
-			bad = append(bad, "the visit depends on `"+strings.Join(eg, "`, `")+"`")
+	for _, p := range c.astNorm().normPaths(fd) {
+		if of := p.otherFacts(rv + ".Visited"); len(of) > 0 {
+			bad = append(bad, "the visit depends on `"+strings.Join(of, "`, `")+"`")
 			continue
 		}
-		last := p[len(p)-1]
+		ret := lastReturn(p)
 		switch {
-		case p.has("+", rv+".Visited"):
+		case p.holds(rv + ".Visited"):
 			nCut++
-			if p.has("call", visit) {
+			if p.hasCall(visit) {
 				bad = append(bad, "a rule that is already being visited is visited again: the nullable pass does not terminate on a recursive grammar")
 			}
-			if last.Kind != "return" || last.Text != "false" {
-				bad = append(bad, "a rule that is already being visited answers `"+last.Text+"` instead of false (a rule on its own left edge is considered non-nullable)")
+			if ret != "false" {
+				bad = append(bad, "a rule that is already being visited answers `"+ret+"` instead of false (a rule on its own left edge is considered non-nullable)")
 			}
-		case p.has("-", rv+".Visited"):
+		case p.holds("!" + rv + ".Visited"):
 			nVisit++
-			iSet := p.index("assign", rv+".Visited=true", 0)
-			iCall := p.index("call", visit, 0)
-			iStore := p.index("assign", rv+".Nullable="+visit, 0)
-			iClr := p.index("assign", rv+".Visited=false", 0)
+			iSet := p.evIndex("set", 0, func(s string) bool { return s == rv+".Visited=true" })
+			iCall := p.evIndex("call", 0, func(s string) bool { return s == visit })
+			iStore := p.evIndex("set", 0, func(s string) bool { return s == rv+".Nullable="+visit })
+			iClr := p.evIndex("set", 0, func(s string) bool { return s == rv+".Visited=false" })
 			switch {
-			case iCall < 0 || iStore < 0:
+			case iCall < 0 || iStore < 0 || iStore < iCall:
 				bad = append(bad, "the rule's expression is not visited, or its answer is not stored in "+rv+".Nullable: rule references read a stale flag")
 			case iSet < 0 || iSet > iCall:
 				bad = append(bad, rv+".Visited is not set before the expression is visited: a recursive rule is visited without end")
 			case iClr < 0 || iClr < iCall:
 				bad = append(bad, rv+".Visited is not cleared after the visit: every later visit of the rule is taken for a cycle and answers false")
 			}
-			if last.Kind != "return" || last.Text != rv+".Nullable" {
-				bad = append(bad, "the visit returns `"+last.Text+"` instead of the stored flag")
+			// the answer is the value of the visit: the stored flag, or the visit's result itself
+			if !(ret == rv+".Nullable" && iStore >= 0 || ret == visit) {
+				bad = append(bad, "the visit returns `"+ret+"` instead of the stored flag")
 			}
 		default:
 			bad = append(bad, "a path does not test "+rv+".Visited")
